@@ -17,6 +17,9 @@ type ResponseCapture struct {
 	http.ResponseWriter
 	StatusCode    int
 	ContentLength int
+	// wroteHeader is true once the final status has been sent: later
+	// calls to WriteHeader are ignored by the underlying writer.
+	wroteHeader bool
 }
 
 // CaptureResponse creates a ResponseCapture that wraps the given ResponseWriter.
@@ -30,15 +33,20 @@ func CaptureResponse(w http.ResponseWriter) *ResponseCapture {
 
 // WriteHeader records the value of the status code before writing it.
 func (w *ResponseCapture) WriteHeader(code int) {
-	w.StatusCode = code
+	if !w.wroteHeader {
+		w.StatusCode = code
+		// informational (1xx) responses are followed by the final status
+		w.wroteHeader = code >= 200 || code == http.StatusSwitchingProtocols
+	}
 	w.ResponseWriter.WriteHeader(code)
 }
 
 // Write computes the written len and stores it in ContentLength. Writing the
 // body without calling WriteHeader first sends an implicit 200 status.
 func (w *ResponseCapture) Write(b []byte) (int, error) {
-	if w.StatusCode == 0 {
+	if !w.wroteHeader {
 		w.StatusCode = http.StatusOK
+		w.wroteHeader = true
 	}
 	n, err := w.ResponseWriter.Write(b)
 	w.ContentLength += n
@@ -49,9 +57,10 @@ func (w *ResponseCapture) Write(b []byte) (int, error) {
 // writer supports it.
 func (w *ResponseCapture) Flush() {
 	if f, ok := w.ResponseWriter.(http.Flusher); ok {
-		if w.StatusCode == 0 {
+		if !w.wroteHeader {
 			// flushing sends the headers with an implicit 200 status
 			w.StatusCode = http.StatusOK
+			w.wroteHeader = true
 		}
 		f.Flush()
 	}
